@@ -178,7 +178,7 @@ def ItemOk (strip : Bool) : Item → Prop
   | .line lw b => Plain lw ∧ Plain b
   | .rect lw b => Plain lw ∧ Plain b
   | .curve lw b p => Plain lw ∧ Plain b ∧ Plain p
-  | .image w h => Plain w ∧ Plain h
+  | .image w h src => Plain w ∧ Plain h ∧ (match src with | none => True | some n => Legal (maybeStrip strip n))
   | .figure n b kids => Legal (maybeStrip strip n) ∧ Plain b ∧ ItemsOk strip kids
   | .textline b kids => Plain b ∧ ItemsOk strip kids
   | .textbox i b _ kids => Plain i ∧ Plain b ∧ ItemsOk strip kids
@@ -242,11 +242,17 @@ theorem renders_item (strip : Bool) (i : Item) (h : ItemOk strip i) :
         (good_plain (k := ['p','t','s']) (by name_ok) h.2.2 good_nil))
     exact renders_empty _ ['c','u','r','v','e'] _ _ false
       (by simp [xmlWrites, t_render_LTCurve_0, renderTok, tagBody, renderAttrs, closeStr]) (by name_ok) hg.1 hg.2
-  | image w hh =>
+  | image w hh src =>
     have hg := good_plain (k := ['w','i','d','t','h']) (by name_ok) h.1
-      (good_plain (k := ['h','e','i','g','h','t']) (by name_ok) h.2 good_nil)
-    exact renders_empty _ ['i','m','a','g','e'] _ _ true
-      (by simp [xmlWrites, t_render_LTImage_1, renderTok, tagBody, renderAttrs, closeStr]) (by name_ok) hg.1 hg.2
+      (good_plain (k := ['h','e','i','g','h','t']) (by name_ok) h.2.1 good_nil)
+    cases src with
+    | none =>
+      exact renders_empty _ ['i','m','a','g','e'] _ _ true
+        (by simp [xmlWrites, t_render_LTImage_1, renderTok, tagBody, renderAttrs, closeStr]) (by name_ok) hg.1 hg.2
+    | some n =>
+      have hg2 := good_attr strip n (k := ['s','r','c']) (by name_ok) h.2.2 hg
+      exact renders_empty _ ['i','m','a','g','e'] _ _ true
+        (by simp [xmlWrites, t_render_LTImage_0, renderTok, tagBody, renderAttrs, closeStr]) (by name_ok) hg2.1 hg2.2
   | figure n b kids =>
     obtain ⟨hn, hb, hk⟩ := h
     have hg := good_attr strip n (k := ['n','a','m','e']) (by name_ok) hn
